@@ -43,10 +43,10 @@ def gen_cases(tier, seed):
                       'advid': r.choice([None, 'lifo', 'lifo', 'fifo', 'random', 'fresh']) if not xtalk else r.choice(['lifo', 'lifo', 'random']),
                       'mode': 'async' if i % 4 == 1 else 'sync', 'fuzz': r.random() < 0.8, 'seed': r.randrange(1 << 30)})
     # the id-recycling shape again, on both servers, enough times that an allocator-dependent fault does not slip through a single schedule
-    for i in range(20 if tier == 'quick' else 80):
+    for i in range(28 if tier == 'quick' else 112):
         r = random.Random(rng.randrange(1 << 30))
         cases.append({'tree': ['Ens', True, [['T', 'A', 1, 0, {}], ['T', 'B', r.choice([1, 2]), 0, {}]]], 'xtalk': True, 'capacity': r.choice([1, 2, 4, 16]), 'callers': r.choice([1, 2]),
-                      'per_caller': r.choice([40, 60]), 'advid': r.choice(['lifo', 'lifo', 'random']), 'mode': 'async' if i % 5 < 4 else 'sync', 'fuzz': r.random() < 0.8, 'seed': r.randrange(1 << 30)})
+                      'per_caller': r.choice([40, 60]), 'advid': r.choice(['lifo', 'lifo', 'random']), 'mode': 'async' if i % 7 < 4 else 'sync', 'fuzz': r.random() < 0.8, 'seed': r.randrange(1 << 30)})
     # composites inside composites (the random trees rarely nest an ensemble in an ensemble), and two servers alive in one process
     # at the same time (the second one started, stopped and started again while the first is serving)
     T = lambda tag, n=1, b=0: ['T', tag, n, b, {}]  # noqa: E731
